@@ -117,8 +117,11 @@ class Clause:
 
 
 class Inv:
-    def __init__(self, fn, decreases=None, types=None, modifies=None, props=None):
+    def __init__(self, fn, decreases=None, types=None, modifies=None, props=None, hints=None):
         self.fn = fn
+        # hints(a, v) -> [(lemma, args)]: ground instances of proved lemmas (their `statement`, a ForAll)
+        # assumed at the loop head, for lemmas whose trigger would otherwise start a matching loop
+        self.hints = hints
         self.decreases = decreases
         self.types = types or {}
         self.modifies = modifies
